@@ -52,7 +52,14 @@ fn expect_reads(n: usize, evs: &[String]) -> (Vec<String>, Vec<u8>) {
     for e in evs {
         match e.as_str() {
             "i" | "n" => flat.push(E::I),
-            "e" | "t" => flat.push(E::Err),
+            "e" | "t" | "x" => flat.push(E::Err),
+            s if s.starts_with("s:") => {}
+            r if r.starts_with("r:") => {
+                let (n, b) = r[2..].split_once(':').unwrap();
+                for _ in 0..n.parse::<usize>().unwrap() {
+                    flat.push(E::B(u8::from_str_radix(b, 16).unwrap()));
+                }
+            }
             "z" => flat.push(E::Z),
             d => {
                 for b in parse_hex(&d[2..]).unwrap() {
@@ -156,8 +163,9 @@ pub fn c15(thorough: bool, rng: &mut Rng, out: &mut Out) {
         out.stat("read.nested-codec-use");
         read_case(out, 2, evs, true);
     }
-    // an error / zero read at every call index
-    for kind in ["e", "z", "t"] {
+    // an error / zero read at every call index (`x`: an InvalidData error whose payload is the library's own
+    // FrameError — still an I/O failure of the stream, not a verdict on a line)
+    for kind in ["e", "z", "t", "x"] {
         for i in 0..=singles.len() {
             let mut evs = singles.clone();
             evs.insert(i, kind.into());
@@ -228,7 +236,7 @@ pub fn c15(thorough: bool, rng: &mut Rng, out: &mut Out) {
     // consumed through its line feed and the frame behind it is the next read's (a cap on the line buffer shows)
     let mut longs: Vec<usize> = vec![600, 4096, 65537];
     if thorough {
-        longs.extend_from_slice(&[1 << 20, (1 << 20) + 5, (1 << 21) + 1]);
+        longs.extend_from_slice(&[1 << 20, (1 << 20) + 5, (1 << 21) + 1, 1 << 24, (1 << 24) + 7]);
     } else {
         longs.push((1 << 20) + 5);
     }
@@ -257,7 +265,7 @@ pub fn c15(thorough: bool, rng: &mut Rng, out: &mut Out) {
             write_case(out, *a, *t, d, evs);
         }
         for i in 0..=w.len() {
-            for kind in ["e", "a:0", "i"] {
+            for kind in ["e", "a:0", "i", "x"] {
                 let mut evs: Vec<String> = (0..w.len()).map(|_| "a:1".to_string()).collect();
                 evs.insert(i, kind.into());
                 write_case(out, *a, *t, d, evs);
@@ -306,7 +314,7 @@ fn write_case(out: &mut Out, a: u16, t: u8, d: &[u8], evs: Vec<String>) {
         }
         match e.as_str() {
             "i" => {}
-            "e" | "a:0" => {
+            "e" | "a:0" | "x" => {
                 failed = true;
                 break;
             }
@@ -566,6 +574,17 @@ pub fn c16(thorough: bool, rng: &mut Rng, out: &mut Out) {
     if thorough {
         long_transfer_on_one_bus(out, "C16");
     }
+    // a reply that trickles in over six seconds (three pauses of two seconds, each shorter than the port's read
+    // timeout): delivered in full and without error, it is the reply
+    {
+        let a = 3u16;
+        let m = Message::QueryState(Address(a));
+        let w = msg_wire(&Message::ReportState(Address(a), State::PageLoaded));
+        let line = format!("serial {} | d:{} s:2000 d:{} s:2000 d:{} s:2100 d:{} |", show_msg(&m), hex_of(&w[..1]), hex_of(&w[1..5]), hex_of(&w[5..9]), hex_of(&w[9..]));
+        let i = out.case(line, true);
+        out.stat("serial.reply-trickling-in-over-6s");
+        serial_oracle(out, i, &m, &show_msg(&Message::ReportState(Address(a), State::PageLoaded)), &[], false, false);
+    }
     out.rule = "every message kind (hello / query / goodbye / pixels-complete / chunk count over 5 addresses, 6 requests, 6 acks, 13 reports, unknown frames, data chunks of length 0/1/16/255/random) x reply tapes; unknown frames of every data length 0..=255 (and data chunks of every length in the thorough tier) with no reply due; (13 states, 6 acks, unknown, data, malformed, bad checksum, empty, bare CRLF) each followed by extra bytes; a write failure at the first and at a later write call; a read failure; non-trivial = every case; distinct = distinct case line".into();
     out.exhaustive_note = "kinds x reply tapes complete for the listed parameter values; data chunk cases limited (each sleeps 30 ms)".into();
     let n_sd = if thorough { 40 } else { 10 };
@@ -732,6 +751,45 @@ pub fn c18(thorough: bool, rng: &mut Rng, out: &mut Out) {
             }
         }
     }
+    // a port that is a little slow ALL the time (every write takes 15 ms, every reply 40 ms to start): the pauses are
+    // minimum gaps, not a cadence — time the port itself took does not count towards them
+    {
+        let a = 3u16;
+        let lp = Message::ReportState(Address(a), State::PageLoadInProgress);
+        let q = Message::QueryState(Address(a));
+        let chunks: Vec<Message<'static>> = (0..4u16).map(|k| sd(16 * k, &[k as u8; 16])).collect();
+        let runs: Vec<(u64, u64, Vec<Message<'static>>, Vec<Message<'static>>)> = vec![
+            (15, 0, chunks.clone(), vec![]),
+            (8, 0, chunks.clone(), vec![]),
+            (0, 40, vec![q.clone(), q.clone(), q.clone()], vec![lp.clone(), lp.clone(), lp.clone()]),
+            (10, 30, vec![chunks[0].clone(), q.clone(), chunks[1].clone(), q.clone()], vec![lp.clone(), lp.clone()]),
+        ];
+        for (wms, rms, msgs, replies) in runs {
+            let tape: Vec<u8> = replies.iter().flat_map(|r| msg_wire(r)).collect();
+            let line = format!("serialmte {} {} {} | {} |", wms, rms, msgs.iter().map(show_msg).collect::<Vec<_>>().join(" "), if tape.is_empty() { "d:0A".to_string() } else { format!("d:{}", hex_of(&tape)) });
+            let i = out.case(line, true);
+            out.stat("pace.port-slow-all-the-time");
+            let got = out.impls[i].clone();
+            let parts: Vec<&str> = got.split(" ; ").collect();
+            let mut ri = 0;
+            for (k, m) in msgs.iter().enumerate() {
+                let p = parts.get(k).copied().unwrap_or("");
+                let is_sd = matches!(m, Message::SendData(..));
+                if is_sd && k + 1 < msgs.len() && !p.contains(" G:30") {
+                    out.fail(i, format!("C18 port taking {} ms per write: exchange {} (a data chunk) was followed by the next write within 30 ms of its own write's end: {}", wms, k + 1, trunc(&got)));
+                    break;
+                }
+                if expects_reply(m) {
+                    let paced = matches!(replies.get(ri), Some(Message::ReportState(_, State::PageLoadInProgress)));
+                    ri += 1;
+                    if paced && !p.contains(" S:100") {
+                        out.fail(i, format!("C18 sign taking {} ms to answer: exchange {} returned less than 100 ms after the in-progress report was read: {}", rms, k + 1, trunc(&got)));
+                        break;
+                    }
+                }
+            }
+        }
+    }
     // slow port: the write of a data chunk blocks for longer than the 30 ms pause, and the sign takes
     // longer than the 100 ms wait to answer with an in-progress report; the pauses are owed *after* the
     // write / read completes, whatever time the call itself took
@@ -857,6 +915,8 @@ pub fn c20(thorough: bool, rng: &mut Rng, out: &mut Out) {
     out.exhaustive = thorough;
     let mut bauds: Vec<String> = (0..11).map(|b| b.to_string()).collect();
     bauds.extend(["o0".to_string(), "o19200".to_string(), "o4000000".to_string()]);
+    // speeds that equal 19200 only modulo 2^16 / 2^32 (a comparison in a narrower integer must not take them for it)
+    bauds.extend([format!("o{}", (1u64 << 32) + 19200), format!("o{}", (3u64 << 32) + 19200), format!("o{}", (1u64 << 16) + 19200)]);
     let t = rng.range(1, 60_000);
     let cfg_kind = format!("cfg:{}", t);
     for b in &bauds {
@@ -1130,6 +1190,23 @@ pub fn c17(thorough: bool, rng: &mut Rng, out: &mut Out) {
                 if rs_.len() != 3 || !rs_[0].starts_with("ok w=3A") || !rs_[1].starts_with("ok w=-") || !rs_[2].starts_with("ok w=3A") {
                     out.fail(i, format!("C17 a line equal to the bridge's own last reply must be forwarded like any frame, and the next query answered by the next call: '{}'", trunc(&got)));
                 }
+            }
+        }
+    }
+    // (thorough) a 16 MiB line of noise directly followed — on the same line — by a well-formed frame: one
+    // undecodable line, one communication error, nothing forwarded; the bridge's next call finds the stream empty
+    if thorough {
+        let a = 3u16;
+        let hello = enc_nl(a, 2, &[0xFF]);
+        for n in [1usize << 24, (1 << 24) + 5] {
+            let line = format!("odk 2 M,{:04X};A,{:04X} | r:{}:41 d:{} |", a, a + 9, n, hex_of(&hello));
+            let i = out.case(line, true);
+            out.stat("odk.16MiB-line-with-frame-tail");
+            let got = out.impls[i].clone();
+            let parts: Vec<&str> = got.split(" | ").collect();
+            let rs_: Vec<&str> = parts.first().map(|p| p.split(" ; ").collect()).unwrap_or_default();
+            if rs_.len() != 2 || !rs_[0].starts_with("comm w=-") || !rs_[1].starts_with("comm w=-") {
+                out.fail(i, format!("C17 a {}-byte line ending in a well-formed frame is ONE undecodable line: '{}'", n, trunc(&got)));
             }
         }
     }
